@@ -78,8 +78,59 @@ def _enclosing_try(func_node, target):
     return found
 
 
+def _tail_exit_to_flag(fn):
+    """`while True: BODY; if done: return V` (the test is the last statement of the loop, `done` a local flag assigned in
+    BODY, nothing follows the loop) is the do-while `retry = True; while retry: BODY'; return V` with `retry = not done`
+    written where `done` was assigned - the form the send-loop rules read.  Anything else is left as it is."""
+    import copy
+
+    for owner, field, lst in normal._stmt_lists(fn):
+        for i, st in enumerate(lst):
+            if not (isinstance(st, ast.While) and isinstance(st.test, ast.Constant) and st.test.value is True and not st.orelse and st.body and i == len(lst) - 1):
+                continue
+            tail = st.body[-1]
+            if not (isinstance(tail, ast.If) and not tail.orelse and len(tail.body) == 1 and isinstance(tail.body[0], ast.Return) and isinstance(tail.test, ast.Name)):
+                continue
+            if any(isinstance(n, (ast.Break, ast.Continue)) for n in ast.walk(st)):
+                continue
+            done = tail.test.id
+            uses = [n for n in ast.walk(fn) if isinstance(n, ast.Name) and n.id == done]
+            assigns = [n for n in ast.walk(st) if isinstance(n, ast.Assign) and len(n.targets) == 1 and isinstance(n.targets[0], ast.Name) and n.targets[0].id == done]
+            if len(uses) != len(assigns) + 1 or not assigns:
+                continue  # the flag is read elsewhere too
+            flag = "_retry"
+
+            def negated(e):
+                if isinstance(e, ast.Constant) and isinstance(e.value, bool):
+                    return ast.Constant(value=not e.value)
+                if isinstance(e, ast.Compare) and len(e.ops) == 1 and isinstance(e.comparators[0], ast.Constant) and e.comparators[0].value == 0 and isinstance(e.ops[0], (ast.Eq, ast.LtE)) \
+                        and isinstance(e.left, ast.Call) and isinstance(e.left.func, ast.Name) and e.left.func.id == "len":
+                    return ast.Compare(left=e.left, ops=[ast.Gt()], comparators=[ast.Constant(value=0)])  # a length is never negative
+                if isinstance(e, ast.Compare) and len(e.ops) == 1:
+                    inv = {ast.Eq: ast.NotEq, ast.NotEq: ast.Eq, ast.Lt: ast.GtE, ast.GtE: ast.Lt, ast.Gt: ast.LtE, ast.LtE: ast.Gt}.get(type(e.ops[0]))
+                    if inv is not None:
+                        return ast.Compare(left=e.left, ops=[inv()], comparators=e.comparators)
+                if isinstance(e, ast.UnaryOp) and isinstance(e.op, ast.Not):
+                    return e.operand
+                return ast.UnaryOp(op=ast.Not(), operand=e)
+
+            for a in assigns:
+                a.targets[0].id = flag
+                a.value = negated(a.value)
+            st.body = st.body[:-1]
+            st.test = ast.Name(id=flag, ctx=ast.Load())
+            lst.insert(i, ast.Assign(targets=[ast.Name(id=flag, ctx=ast.Store())], value=ast.Constant(value=True)))
+            lst.append(copy.deepcopy(tail.body[0]))
+            for n in (lst[i], lst[-1]):
+                ast.copy_location(n, st)
+            ast.fix_missing_locations(fn)
+            return fn
+    return fn
+
+
 def check_send_data(ctx, cls, func):
     fn = normal.normalised(ctx, func, aliases=False, comps=False, ifexp=False)  # loop shapes (while True / do-while flag) in one form
+    fn = _tail_exit_to_flag(fn)
     q = func.qualname
     ctx.touch(func)
     sends = [c for c in calls_in(fn) if _is_socket_send(c)]
